@@ -3,6 +3,7 @@ package vuego
 import (
 	"fmt"
 	"reflect"
+	"sort"
 	"strconv"
 	"strings"
 	"sync"
@@ -300,7 +301,8 @@ func (s *Stack) EnvMap() map[string]any {
 }
 
 // ForEach iterates over a collection at the given expr and calls fn(index,value).
-// Supports slices/arrays and map[string]any (iteration order for maps is unspecified).
+// Supports slices/arrays and maps (maps are iterated in ascending key order,
+// so that rendering the same data twice gives the same output).
 // If fn returns an error iteration is stopped and the error passed through.
 func (s *Stack) ForEach(expr string, fn func(index int, value any) error) error {
 	v, ok := s.Resolve(expr)
@@ -322,6 +324,9 @@ func (s *Stack) ForEach(expr string, fn func(index int, value any) error) error 
 		return nil
 	case reflect.Map:
 		keys := rv.MapKeys()
+		sort.Slice(keys, func(i, j int) bool {
+			return fmt.Sprint(keys[i].Interface()) < fmt.Sprint(keys[j].Interface())
+		})
 		for i, key := range keys {
 			if err := fn(i, rv.MapIndex(key).Interface()); err != nil {
 				return err
